@@ -1,2 +1,173 @@
--- driver stub (replaced when the model for C12 is built)
-def main : IO Unit := pure ()
+/-
+  Driver for C12 (point and line location).  Stateful line protocol: a `geo` line installs the
+  current geometry, a `qt` line builds and installs a quadtree, the other lines are queries.
+  Rationals are `num/den` (or an integer); a reply never contains a float.
+-/
+import PyTough.Model.Locate
+import PyTough.Model.Track
+open Model.Locate
+
+abbrev P := StateT (List String) Option
+
+def tok : P String := fun s => match s with | [] => none | t :: r => some (t, r)
+
+def parseInt (s : String) : Option Int :=
+  match s.toList with
+  | '-' :: r => (String.ofList r).toNat?.map fun n => -(n : Int)
+  | _ => s.toNat?.map fun n => (n : Int)
+
+def parseRat (s : String) : Option Rat :=
+  match s.splitOn "/" with
+  | [a] => (parseInt a).map fun n => (n : Rat)
+  | [a, b] => do
+    let n ← parseInt a
+    let d ← b.toNat?
+    if d = 0 then none else some (mkRat n d)
+  | _ => none
+
+def rat : P Rat := do let t ← tok; (parseRat t : Option Rat)
+def nat : P Nat := do let t ← tok; (t.toNat? : Option Nat)
+def pt : P Pt := do let x ← rat; let y ← rat; pure (x, y)
+def many {α} (p : P α) : Nat → P (List α)
+  | 0 => pure []
+  | n + 1 => do let a ← p; let r ← many p n; pure (a :: r)
+def counted {α} (p : P α) : P (List α) := do let n ← nat; many p n
+/-- `-` for None, otherwise the value -/
+def opt {α} (p : P α) : P (Option α) := fun s =>
+  match s with
+  | "-" :: r => some (none, r)
+  | _ => (p s).map fun (a, r) => (some a, r)
+
+def column : P Column := do
+  let poly ← counted pt
+  let c ← pt
+  let s ← rat
+  let nb ← counted nat
+  pure { poly := poly, centre := c, surface := s, nbrs := nb }
+
+def layer : P Layer := do let b ← rat; let t ← rat; pure { bottom := b, top := t }
+
+def geoP : P Geo := do
+  let cols ← counted column
+  let lays ← counted layer
+  pure { cols := cols, layers := lays }
+
+def showRat (r : Rat) : String := if r.den = 1 then s!"{r.num}" else s!"{r.num}/{r.den}"
+def showPt (p : Pt) : String := showRat p.1 ++ "," ++ showRat p.2
+def showRect (r : Rect) : String := showPt r.1 ++ "," ++ showPt r.2
+def showNats (l : List Nat) : String := ",".intercalate (l.map toString)
+def showOptNat : Option Nat → String | none => "none" | some n => toString n
+
+partial def dumpQ (gen : Nat) : QTree → List String
+  | .node b e ch => s!"{gen}:{showRect b}:{showNats e}" :: (ch.map (dumpQ (gen + 1))).flatten
+
+structure St where
+  geo : Geo := { cols := [], layers := [] }
+  qt : Option QT := none
+
+def run {α} (p : P α) (args : List String) : Option α :=
+  match p args with
+  | some (a, []) => some a
+  | _ => none
+
+def showTrack (t : Model.Track.TrackOut) : String :=
+  match t with
+  | .unstable why => "unstable " ++ why
+  | .ok segs => "ok " ++ " ".intercalate (segs.map fun s => s!"{s.col}:{showPt s.pin}:{showPt s.pout}")
+
+def handle (st : St) : List String → St × String
+  | "geo" :: args =>
+    match run geoP args with
+    | some g => ({ geo := g, qt := none }, "ok")
+    | none => (st, "bad-geo")
+  | "qt" :: args =>
+    match run (do let cs ← opt (counted nat); let a ← pt; let b ← pt; pure (cs, a, b)) args with
+    | some (cs, a, b) =>
+      let cols := cs.getD (List.range st.geo.ncols)
+      match columnQuadtree st.geo (a, b) cols with
+      | some q => ({ st with qt := some q }, "ok " ++ " ".intercalate (dumpQ 0 q.root))
+      | none => ({ st with qt := none }, "exc RecursionError")
+    | none => (st, "bad-qt")
+  | "leaf" :: args =>
+    match run pt args, st.qt with
+    | some p, some q =>
+      (st, match q.root.leaf p with
+           | some l => s!"{showRect l.bounds}:{showNats l.elements}"
+           | none => "none")
+    | _, _ => (st, "bad-leaf")
+  | "ccp" :: args =>
+    match run (do let p ← pt; let cs ← opt (counted nat); let gu ← opt nat; let b ← opt (counted pt); let q ← nat
+                  pure (p, cs, gu, b, q)) args with
+    | some (p, cs, gu, b, q) =>
+      let a : Aids := { columns := cs, guess := gu, bounds := b, qtree := if q = 1 then st.qt else none }
+      (st, showOptNat (columnContainingPoint st.geo p a))
+    | none => (st, "bad-ccp")
+  | "blk" :: args =>
+    match run (do let p ← pt; let z ← rat; let q ← nat; pure (p, z, q)) args with
+    | some (p, z, q) =>
+      (st, match blockContainingPoint st.geo p z (if q = 1 then st.qt else none) with
+           | .ok none => "none"
+           | .ok (some (li, ci)) => s!"{li} {ci}"
+           | .error _ => "exc IndexError")
+    | none => (st, "bad-blk")
+  | "bcp" :: args =>
+    match run (do let li ← nat; let ci ← nat; let p ← pt; let z ← rat; pure (li, ci, p, z)) args with
+    | some (li, ci, p, z) => (st, if blockContainsPoint st.geo li ci p z then "1" else "0")
+    | none => (st, "bad-bcp")
+  | "lce" :: args =>
+    match run rat args with
+    | some z => (st, showOptNat (layerContainingElevation st.geo z))
+    | none => (st, "bad-lce")
+  | "trk" :: args =>
+    match run (do let a ← pt; let b ← pt; pure (a, b)) args with
+    | some (a, b) => (st, showTrack (Model.Track.columnTrack st.geo a b))
+    | none => (st, "bad-trk")
+  -- direct facets of geometry.py
+  | "ip" :: args =>
+    match run (do let p ← pt; let poly ← counted pt; pure (p, poly)) args with
+    | some (_, []) => (st, "exc IndexError")
+    | some (p, poly) => (st, toString (inPolygon p poly))
+    | none => (st, "bad-ip")
+  | "ir" :: args =>
+    match run (do let p ← pt; let a ← pt; let b ← pt; pure (p, a, b)) args with
+    | some (p, a, b) => (st, if inRectangle p (a, b) then "1" else "0")
+    | none => (st, "bad-ir")
+  | "ri" :: args =>
+    match run (do let a ← pt; let b ← pt; let c ← pt; let d ← pt; pure (a, b, c, d)) args with
+    | some (a, b, c, d) => (st, if rectanglesIntersect (a, b) (c, d) then "1" else "0")
+    | none => (st, "bad-ri")
+  | "sr" :: args =>
+    match run (do let a ← pt; let b ← pt; pure (a, b)) args with
+    | some (a, b) => (st, " ".intercalate ((subRectangles (a, b)).map showRect))
+    | none => (st, "bad-sr")
+  | "bp" :: args =>
+    match run (counted pt) args with
+    | some [] => (st, "exc ValueError")
+    | some ps => (st, showRect (boundsOfPoints ps))
+    | none => (st, "bad-bp")
+  | "lir" :: args =>
+    match run (do let a ← pt; let b ← pt; let c ← pt; let d ← pt; pure (a, b, c, d)) args with
+    | some (a, b, c, d) => (st, match Model.Track.lineIntersectsRectangle (a, b) c d with
+                                 | some true => "1" | some false => "0" | none => "exc")
+    | none => (st, "bad-lir")
+  | "lpi" :: args =>
+    match run (do let a ← pt; let b ← pt; let poly ← counted pt; pure (a, b, poly)) args with
+    | some (a, b, poly) => (st, match Model.Track.linePolygonIntersections poly a b with
+                                 | .unstable why => "unstable " ++ why
+                                 | .ok pts => "ok " ++ " ".intercalate (pts.map showPt))
+    | none => (st, "bad-lpi")
+  | _ => (st, "bad-op")
+
+partial def loop (i o : IO.FS.Stream) (st : St) : IO Unit := do
+  let line ← i.getLine
+  if line.isEmpty then return ()
+  let ws := (line.trimAscii.toString.splitOn " ").filter (· ≠ "")
+  let (st', r) := handle st ws
+  o.putStrLn r
+  loop i o st'
+
+def main : IO Unit := do
+  let i ← IO.getStdin
+  let o ← IO.getStdout
+  loop i o {}
+  o.flush
